@@ -28,6 +28,7 @@ ANCHORS = ["feature_model.py:Relation.is_mandatory", "feature_model.py:Relation.
            "feature_model.py:FeatureModel.get_mandatory_features",
            "feature_model.py:FeatureModel.get_strictcomplex_constraints"]
 NSHARDS = 16
+CONTRACTS = None   # the query contracts run with the pinned tests only (inside C03's own shards every query is judged directly)
 REL_PREDS = {"mandatory": "is_mandatory", "optional": "is_optional", "or": "is_or",
              "alternative": "is_alternative", "mutex": "is_mutex", "cardinal": "is_cardinal"}
 
@@ -309,6 +310,9 @@ def run_case(acc, source, spec, path, seed=0):
 
 
 def run_shard(desc, acc):
+    if desc.get("shard") == 0:
+        from ..contracts_run import run_pinned_tests
+        run_pinned_tests(acc, ('get_features-once', 'get_relations-once', 'lookup-by-name', 'relation-partition'))
     for source, spec, path in cases(desc):
         run_case(acc, source, spec, path)
 
